@@ -127,6 +127,18 @@ def gen_footprint(repo, info):
                     shared_init.append("chained:%s:%s" % (node.name, ast.unparse(sub)))
     init_attrs = sorted(set(init_attrs))
     stored_attrs = sorted(set(stored_attrs))
+    # what a connection does with the shared queue: anything but put_nowait (qsize, full, empty, get ...) lets one
+    # connection observe the others
+    queue_uses = set()
+    for node in ast.walk(cls):
+        if isinstance(node, ast.Attribute) and isinstance(node.value, ast.Attribute) and node.value.attr == "queue" \
+                and isinstance(node.value.value, ast.Name) and node.value.value.id == "self":
+            queue_uses.add(node.attr)
+        if isinstance(node, ast.Call):
+            for a in list(node.args) + [k.value for k in node.keywords]:
+                if isinstance(a, ast.Attribute) and a.attr == "queue" and isinstance(a.value, ast.Name) and a.value.id == "self":
+                    queue_uses.add("passed-to:" + ast.unparse(node.func))
+    queue_uses = sorted(queue_uses)
 
     # server.py : the protocol factory
     with open(os.path.join(src, "server.py"), encoding="utf-8") as fh:
@@ -206,7 +218,7 @@ def gen_footprint(repo, info):
         "classLevelAssigns": class_assigns, "mutableDefaultArgs": mutable_defaults, "globalStores": global_stores,
         "moduleMutables": module_mutables, "initAttrs": init_attrs, "storedAttrs": stored_attrs,
         "sharedMutableInitValues": shared_init, "factoryFreshInstance": fresh, "factoryPassesQueue": passes_queue,
-        "queueUnbounded": bool(queue_names) and queue_unbounded,
+        "queueUnbounded": bool(queue_names) and queue_unbounded, "queueUses": queue_uses,
         "wiring": wiring,
     }
     info["footprint"] = fp
@@ -219,6 +231,7 @@ def gen_footprint(repo, info):
              "  initAttrs : List String",
              "  storedAttrs : List String",
              "  sharedMutableInitValues : List String",
+             "  queueUses : List String         -- attributes of the shared queue a connection touches",
              "  factoryFreshInstance : Bool",
              "  factoryPassesQueue : Bool",
              "  queueUnbounded : Bool         -- the shared queue is created without a size limit (put_nowait never refuses)",
@@ -233,7 +246,7 @@ def gen_footprint(repo, info):
              "/-- extracted from protocol.py (class ASTMProtocol) and server.py (create_server factory) -/",
              "def protocolFootprint : Footprint where"]
     for k in ["classLevelAssigns", "mutableDefaultArgs", "globalStores", "moduleMutables", "initAttrs", "storedAttrs",
-              "sharedMutableInitValues"]:
+              "sharedMutableInitValues", "queueUses"]:
         lines.append("  %s := %s" % (k, lst(fp[k])))
     lines.append("  factoryFreshInstance := %s" % ("true" if fresh else "false"))
     lines.append("  factoryPassesQueue := %s" % ("true" if passes_queue else "false"))
